@@ -1081,8 +1081,11 @@ fn run_ops<const D: usize, const F: usize, const V: usize>(
             continue;
         }
         // (a history may run on a clock that stands still: boards without a real-time clock report a constant time)
-        if h.get("clock").and_then(|x| x.as_str()) != Some("stalled") {
-            clk += 1;
+        match h.get("clock").and_then(|x| x.as_str()) {
+            Some("stalled") => {}
+            // ... or that is set back (end of daylight saving, a real-time clock that lost its setting)
+            Some("backwards") => clk = if clk == 100 { 5000 } else { clk - 7 },
+            _ => clk += 1,
         }
         clock.0.set(clk);
         stats.api_calls += 1;
